@@ -1230,3 +1230,190 @@ Lemma hstep_is_heal_proof : forall (N : num) (B : base) ctor s gen sch mr m e,
   hstep N B ctor s (HHeal gen sch mr m e) =
     (let '(r, st', ls) := heal N O C ctor gen mr (of_dyadic N m e) (cs_stats s) in (mkCS st' (cs_reg s), OHeal r ls)).
 Proof. intros. reflexivity. Qed.
+
+(* ---------------------------------------------------------------------- *)
+(* the clock                                                                 *)
+
+Section ClockProofs.
+Variable N : num.
+Variable O : oracles.
+Variable C : config.
+Variable clk : nat -> T N.
+
+Lemma fold_loop_t_untimed : forall strats p st atts k ds,
+  fst (fold_loop_t N O C clk strats p st atts k ds) = fold_loop O C strats p st atts.
+Proof.
+  induction strats as [|s rest IH]; intros p st atts k ds; [reflexivity|].
+  cbn [fold_loop_t fold_loop].
+  destruct (attempt_fold O C s p) as [r l]. destruct r as [res|e].
+  - destruct (p_valid res); [reflexivity|].
+    specialize (IH p (inc_attempts st s) (atts ++ [(s, false, p_error res)]) (S (S k))
+                   (ds ++ [duration N (clk k) (clk (S k))])).
+    destruct (fold_loop_t N O C clk rest p (inc_attempts st s) (atts ++ [(s, false, p_error res)]) (S (S k))
+                (ds ++ [duration N (clk k) (clk (S k))])) as [[[r' st'] l'] tm].
+    cbn [fst] in IH. rewrite <- IH. reflexivity.
+  - destruct (outer_catches e); [|reflexivity].
+    specialize (IH p (inc_attempts st s) (atts ++ [(s, false, Some (ErrStr e))]) (S (S k))
+                   (ds ++ [duration N (clk k) (clk (S k))])).
+    destruct (fold_loop_t N O C clk rest p (inc_attempts st s) (atts ++ [(s, false, Some (ErrStr e))]) (S (S k))
+                (ds ++ [duration N (clk k) (clk (S k))])) as [[[r' st'] l'] tm].
+    cbn [fst] in IH. rewrite <- IH. reflexivity.
+Qed.
+
+Lemma fold_loop_enhanced_t_untimed : forall strats p st atts k ds,
+  fst (fold_loop_enhanced_t N O C clk strats p st atts k ds) = fold_loop_enhanced N O C strats p st atts.
+Proof.
+  induction strats as [|s rest IH]; intros p st atts k ds; [reflexivity|].
+  cbn [fold_loop_enhanced_t fold_loop_enhanced].
+  destruct (attempt_fold_enhanced N O C s p) as [r l]. destruct r as [res|e].
+  - destruct (e_valid res); [reflexivity|].
+    specialize (IH p (inc_attempts st s) (atts ++ [(s, false, e_error res)]) (S (S k))
+                   (ds ++ [duration N (clk k) (clk (S k))])).
+    destruct (fold_loop_enhanced_t N O C clk rest p (inc_attempts st s) (atts ++ [(s, false, e_error res)]) (S (S k))
+                (ds ++ [duration N (clk k) (clk (S k))])) as [[[r' st'] l'] tm].
+    cbn [fst] in IH. rewrite <- IH. reflexivity.
+  - destruct (outer_catches e); [|reflexivity].
+    specialize (IH p (inc_attempts st s) (atts ++ [(s, false, Some (ErrStr e))]) (S (S k))
+                   (ds ++ [duration N (clk k) (clk (S k))])).
+    destruct (fold_loop_enhanced_t N O C clk rest p (inc_attempts st s) (atts ++ [(s, false, Some (ErrStr e))]) (S (S k))
+                (ds ++ [duration N (clk k) (clk (S k))])) as [[[r' st'] l'] tm].
+    cbn [fst] in IH. rewrite <- IH. reflexivity.
+Qed.
+
+Lemma fold_t_untimed : forall ctor arg raw st k,
+  fst (fold_t N O C clk ctor arg raw st k) = fold O C ctor arg raw st.
+Proof.
+  intros. unfold fold_t, fold.
+  destruct (preprocess O C raw) as [[p|e] l0]; [|reflexivity].
+  pose proof (fold_loop_t_untimed (effective ctor arg) p (inc_total st) [] k []) as H.
+  destruct (fold_loop_t N O C clk (effective ctor arg) p (inc_total st) [] k []) as [[[r st2] l1] tm].
+  cbn [fst] in H. rewrite <- H.
+  destruct r; try reflexivity.
+  destruct (misfold O C (p_fail (ErrAllFailed (length (effective ctor arg)))) atts); reflexivity.
+Qed.
+
+Lemma fold_enhanced_t_untimed : forall ctor arg raw st k,
+  fst (fold_enhanced_t N O C clk ctor arg raw st k) = fold_enhanced N O C ctor arg raw st.
+Proof.
+  intros. unfold fold_enhanced_t, fold_enhanced.
+  destruct (preprocess O C raw) as [[p|e] l0]; [|reflexivity].
+  pose proof (fold_loop_enhanced_t_untimed (effective ctor arg) p (inc_total st) [] k []) as H.
+  destruct (fold_loop_enhanced_t N O C clk (effective ctor arg) p (inc_total st) [] k []) as [[[r st2] l1] tm].
+  cbn [fst] in H. rewrite <- H.
+  destruct r; try reflexivity.
+  destruct (misfold O C (mkE N false None (Some (ErrAllFailed (length (effective ctor arg)))) atts (lit_0_0 N) [] None) atts);
+    reflexivity.
+Qed.
+
+Lemma heal_loop_t_untimed : forall ctor gen decay fuel k st atts n,
+  fst (heal_loop_t N O C clk ctor gen decay fuel k st atts n) = heal_loop N O C ctor gen decay fuel k st atts.
+Proof.
+  induction fuel as [|fuel IH]; intros k st atts n; [reflexivity|].
+  cbn [heal_loop_t heal_loop].
+  pose proof (fold_enhanced_t_untimed ctor [] (gen k) st n) as H.
+  destruct (fold_enhanced_t N O C clk ctor [] (gen k) st n) as [[[r st'] l] tm].
+  cbn [fst] in H. rewrite <- H.
+  destruct r as [r|e]; [|reflexivity].
+  destruct (e_valid r); [reflexivity|].
+  match goal with |- context [heal_loop_t N O C clk ctor gen decay fuel (S k) st' ?a ?m] =>
+    specialize (IH (S k) st' a m);
+    destruct (heal_loop_t N O C clk ctor gen decay fuel (S k) st' a m) as [[[res st''] ls] tm'] end.
+  cbn [fst] in IH. rewrite <- IH. reflexivity.
+Qed.
+
+Lemma heal_t_untimed : forall ctor gen mr decay st,
+  fst (heal_t N O C clk ctor gen mr decay st) = heal N O C ctor gen mr decay st.
+Proof. intros. apply heal_loop_t_untimed. Qed.
+
+(* what the clock IS used for: two readings per strategy tried; the i-th recorded
+   duration is (reading 2i+1 - reading 2i) * 1000 *)
+Definition durs_from (k m : nat) : list (T N) :=
+  map (fun i => duration N (clk (k + 2 * i)) (clk (S (k + 2 * i)))) (seq 0 m).
+
+Lemma durs_from_S : forall k m,
+  durs_from k (S m) = duration N (clk k) (clk (S k)) :: durs_from (S (S k)) m.
+Proof.
+  intros. unfold durs_from. cbn [seq map]. f_equal.
+  - replace (k + 2 * 0)%nat with k by lia. reflexivity.
+  - rewrite <- seq_shift, map_map. apply map_ext. intros i.
+    replace (k + 2 * S i)%nat with (S (S k) + 2 * i)%nat by lia. reflexivity.
+Qed.
+
+Lemma fold_loop_enhanced_t_timing : forall strats p st atts k ds res st' l k' ds',
+  fold_loop_enhanced_t N O C clk strats p st atts k ds = (res, st', l, (k', ds')) ->
+  exists m, (m <= length strats)%nat /\ k' = (k + 2 * m)%nat /\ ds' = ds ++ durs_from k m /\
+    match res with
+    | LFound r => length (e_attempts r) = (length atts + m)%nat
+    | LExhausted atts' => length atts' = (length atts + m)%nat /\ m = length strats
+    | LRaised _ => False
+    end.
+Proof.
+  induction strats as [|s rest IH]; intros p st atts k ds res st' l k' ds' H.
+  - cbn in H. inversion H; subst. exists 0%nat. unfold durs_from. cbn.
+    rewrite app_nil_r. repeat split; lia.
+  - cbn [fold_loop_enhanced_t] in H.
+    destruct (attempt_fold_enhanced N O C s p) as [r l0]. destruct r as [r|e].
+    + destruct (e_valid r) eqn:Hv.
+      * inversion H; subst. exists 1%nat. rewrite durs_from_S. unfold durs_from at 1. cbn [seq map length].
+        split; [lia|]. split; [lia|]. split; [reflexivity|].
+        cbn. rewrite app_length. cbn. lia.
+      * match type of H with context [fold_loop_enhanced_t N O C clk rest p ?a ?b ?c ?d] =>
+          destruct (fold_loop_enhanced_t N O C clk rest p a b c d) as [[[r' st''] l'] [k'' ds'']] eqn:E end.
+        inversion H; subst. apply IH in E. destruct E as [m [Hm [Hk [Hd Hr]]]].
+        exists (S m). rewrite durs_from_S, Hd, <- app_assoc. cbn [app length].
+        split; [lia|]. split; [lia|]. split; [reflexivity|].
+        destruct res; rewrite ?app_length in Hr; cbn [length] in Hr; [lia | split; lia | exact Hr].
+    + assert (Hc : outer_catches e = true) by (destruct e; reflexivity). rewrite Hc in H.
+      match type of H with context [fold_loop_enhanced_t N O C clk rest p ?a ?b ?c ?d] =>
+          destruct (fold_loop_enhanced_t N O C clk rest p a b c d) as [[[r' st''] l'] [k'' ds'']] eqn:E end.
+      inversion H; subst. apply IH in E. destruct E as [m [Hm [Hk [Hd Hr]]]].
+      exists (S m). rewrite durs_from_S, Hd, <- app_assoc. cbn [app length].
+      split; [lia|]. split; [lia|]. split; [reflexivity|].
+      destruct res; rewrite ?app_length in Hr; cbn [length] in Hr; [lia | split; lia | exact Hr].
+Qed.
+
+Lemma fold_enhanced_t_timing_proof : forall ctor arg raw st k r st' l k' ds,
+  fold_enhanced_t N O C clk ctor arg raw st k = (Ret r, st', l, (k', ds)) ->
+  k' = (k + 2 * length (e_attempts r))%nat /\ ds = durs_from k (length (e_attempts r)).
+Proof.
+  intros ctor arg raw st k r st' l k' ds H. unfold fold_enhanced_t in H.
+  destruct (preprocess O C raw) as [[p|e] l0]; [|discriminate].
+  destruct (fold_loop_enhanced_t N O C clk (effective ctor arg) p (inc_total st) [] k []) as [[[res st2] l1] [k2 ds2]] eqn:E.
+  apply fold_loop_enhanced_t_timing in E. destruct E as [m [Hm [Hk [Hd Hr]]]]. cbn [app length] in *.
+  destruct res.
+  - inversion H; subst. rewrite Hr. split; reflexivity.
+  - unfold misfold in H. destruct (has_misfold C).
+    + destruct (o_misfold O); inversion H; subst. cbn [e_attempts]. destruct Hr as [Hr _]. rewrite Hr. split; reflexivity.
+    + cbn in H. inversion H; subst. cbn [e_attempts]. destruct Hr as [Hr _]. rewrite Hr. split; reflexivity.
+  - contradiction.
+Qed.
+
+End ClockProofs.
+
+(* histories: forgetting the timing of a history in which every call runs under its own
+   clock gives the untimed history *)
+Lemma hstep_t_untimed : forall N B ctor clk s op,
+  fst (hstep_t N B ctor clk s op) = hstep N B ctor s op.
+Proof.
+  intros. destruct op; cbn [hstep_t hstep]; try reflexivity.
+  - pose proof (fold_t_untimed N (oracles_for B sch (lookup_co (cs_reg s) sch)) (config_for B (lookup_co (cs_reg s) sch))
+                  clk ctor arg raw (cs_stats s) 0) as H.
+    destruct (fold_t N _ _ clk ctor arg raw (cs_stats s) 0) as [[[r st'] l] tm]. cbn [fst] in H. rewrite <- H. reflexivity.
+  - pose proof (fold_enhanced_t_untimed N (oracles_for B sch (lookup_co (cs_reg s) sch)) (config_for B (lookup_co (cs_reg s) sch))
+                  clk ctor arg raw (cs_stats s) 0) as H.
+    destruct (fold_enhanced_t N _ _ clk ctor arg raw (cs_stats s) 0) as [[[r st'] l] tm]. cbn [fst] in H. rewrite <- H. reflexivity.
+  - pose proof (heal_t_untimed N (oracles_for B sch (lookup_co (cs_reg s) sch)) (config_for B (lookup_co (cs_reg s) sch))
+                  clk ctor gen max_retries (of_dyadic N m e) (cs_stats s)) as H.
+    destruct (heal_t N _ _ clk ctor gen max_retries (of_dyadic N m e) (cs_stats s)) as [[[r st'] l] tm].
+    cbn [fst] in H. rewrite <- H. reflexivity.
+Qed.
+
+Lemma run_hist_t_untimed : forall N B ctor tops s,
+  map fst (run_hist_t N B ctor s tops) = run_hist N B ctor s (map fst tops).
+Proof.
+  induction tops as [|[op clk] rest IH]; intros s; [reflexivity|].
+  cbn [run_hist_t run_hist map fst].
+  pose proof (hstep_t_untimed N B ctor clk s op) as H.
+  destruct (hstep_t N B ctor clk s op) as [[s' o] tm]. cbn [fst] in H. rewrite <- H.
+  cbn [map fst]. rewrite IH. reflexivity.
+Qed.
